@@ -6,6 +6,7 @@ until DONE, appends DeviceFile(name = record payload, mode, size, mtime = header
 once per DENT, in order, leaves only on DONE, closes the stream and returns that list; stat requests STAT(path),
 reads one STAT record (no payload) and returns header fields 1..3 in order after closing the stream.  The record
 reader / buffered reader they rest on are checked in C08.
+Every transaction starts from an empty receive buffer of its own (same instance as C08).
 """
 import ast
 
